@@ -4,8 +4,9 @@ import json
 import lib
 from lib import gz, gnat, gbool, glist
 
-REQ = "From CfdmV Require Import Common.Base C15.Model C15.Run."
+REQ = "From CfdmV Require Import Common.Base C15.Model C15.Mesh C15.Run."
 DEPENDS = []
+MODEL_FILES = ["Model", "Mesh", "Run"]
 
 
 # ---------------------------------------------------------------- printers
@@ -31,6 +32,113 @@ def g_obs(o):
     if e.startswith("OtherErr"):
         e = "OtherErr"
     return f"(Err {e})"
+
+
+def g_s(x):
+    return '"' + x + '"%string'
+
+
+def g_opt(x, f):
+    return "None" if x is None else f"(Some {f(x)})"
+
+
+def mesh_meta(s):
+    """The file's metadata as drive/c15.py encodes it (names, dimensions, attributes): a Gallina meshmeta."""
+    raw = s.get("raw") or {}
+    faces, edges = s.get("faces"), s.get("edges")
+    pad = s.get("pad", 0)
+    si, tr = s["si"], s["tr"]
+    si_attr = s.get("si_attr", True)
+    dims = [("nNodes", s["n_nodes"])]
+    vs = [("node_x", ["nNodes"]), ("node_y", ["nNodes"])]
+    attrs, coords, sis = [], [], []
+    if not raw.get("drop_node_coords"):
+        coords.append(("node_coordinates", ["node_x", "node_y"]))
+
+    def conn(name, celldim, other, transposed, start):
+        vs.append((name, [other, celldim] if transposed else [celldim, other]))
+        if si_attr or start:
+            sis.append((name, start))
+
+    if faces:
+        w = max([len(f) for f in faces] + [1]) + pad
+        dims += [("nFaces", len(faces)), ("nMaxFaceNodes", w)]
+        conn("face_nodes", "nFaces", "nMaxFaceNodes", tr["face"], si["face"])
+        attrs.append(("face_node_connectivity", "no_such_variable" if raw.get("drop_face_var") else "face_nodes"))
+        if raw.get("face_dimension"):
+            attrs.append(("face_dimension", raw["face_dimension"]))
+        elif tr["face"] or tr.get("ff") or s.get("dim_attr"):
+            attrs.append(("face_dimension", "nFaces"))
+        ff = s.get("face_face")
+        if ff is not None:
+            w2 = max([len(r) for r in ff] + [1])
+            dims.append(("nMaxFaceFaces", w2))
+            ffdim = "nFaces"
+            if raw.get("ff_other_dim"):
+                dims.append(("nOther", len(faces) + 2))
+                ffdim = "nOther"
+            conn("face_links", ffdim, "nMaxFaceFaces", tr.get("ff", False), si["ff"])
+            attrs.append(("face_face_connectivity", "face_links"))
+        if s.get("face_coords"):
+            coords.append(("face_coordinates", ["face_x", "face_y"]))
+            vs += [("face_x", ["nFaces"]), ("face_y", ["nFaces"])]
+    if edges:
+        dims += [("nEdges", len(edges)), ("Two", 2)]
+        conn("edge_nodes", "nEdges", "Two", tr["edge"], si["edge"])
+        attrs.append(("edge_node_connectivity", "edge_nodes"))
+        if tr["edge"] or s.get("dim_attr"):
+            attrs.append(("edge_dimension", "nEdges"))
+        if s.get("edge_coords"):
+            coords.append(("edge_coordinates", ["edge_x"] if raw.get("edge_coord_one") else ["edge_x", "edge_y"]))
+            vs += [("edge_x", ["nEdges"]), ("edge_y", ["nEdges"])]
+    topdim = raw.get("topdim", 2 if faces else 1)
+    pair = lambda f, g: (lambda kv: f"({f(kv[0])}, {g(kv[1])})")
+    return ("{| mm_dims := " + glist(dims, pair(g_s, gz)) + "; mm_vars := " + glist(vs, pair(g_s, lambda l: glist(l, g_s)))
+            + "; mm_attrs := " + glist(attrs, pair(g_s, g_s)) + "; mm_coords := " + glist(coords, pair(g_s, lambda l: glist(l, g_s)))
+            + f"; mm_topdim := Some {gz(topdim)}; mm_si := " + glist(sis, pair(g_s, gz)) + " |}")
+
+
+def loc_summary_obs(o):
+    """What the constructs of a field show of the reader's decisions (shapes, not values)."""
+    if not o or "dt" not in o or "rows" not in o["dt"]:
+        return None
+    dt = o["dt"]
+    cc = o.get("cc") or []
+    ccr = cc[0].get("rows") if len(cc) == 1 else None
+    br = None
+    for a in o.get("aux", []):
+        if a.get("name") == "longitude" and "bounds_rows" in a:
+            br = a["bounds_rows"]
+    ax = o.get("axis_sizes") or [None]
+    return (dt.get("cell") or "?", ax[0], dt["rows"], ccr, br)
+
+
+def mesh_literal(s, r):
+    field = r.get("field") or {}
+    files = file_arrays(s)
+    if "read_err" in field:
+        obs = "(Err OtherErr)"
+    else:
+        items = []
+        for loc in ("node", "edge", "face"):
+            t = loc_summary_obs(field.get(loc))
+            items.append("None" if t is None or t[1] is None else
+                         f"(Some ({g_s(t[0])}, {gz(t[1])}, {gz(t[2])}, {g_opt(t[3], gz)}, {g_opt(t[4], gz)}))")
+        obs = "(Ok [" + "; ".join(items) + "])"
+    data_on = []
+    for loc in ("node", "edge", "face"):
+        data_on.append(loc in s.get("locs", []) and (loc == "node" or loc in files))
+    intent = []
+    for loc in ("node", "edge", "face"):
+        src = ("edge" if "edge" in files else "face" if "face" in files else None) if loc == "node" else (loc if loc in files else None)
+        if src is None or not s.get("valid", True):
+            intent.append("None")
+            continue
+        ccf = "None"
+        if loc == "face" and "ff" in files:
+            ccf = f"(Some ({gbool(files['ff'][2])}, {gz(files['ff'][1])}))"
+        intent.append(f"(Some (({gbool(files[src][2])}, {gz(files[src][1])}), {ccf}))")
+    return f"({mesh_meta(s)}, {glist(data_on, gbool)}, {obs}, [{'; '.join(intent)}])"
 
 
 # ---------------------------------------------------------------- mesh derivations (generator side)
@@ -241,13 +349,16 @@ def make_spec(rng, fam):
                 idx = rng.sample(range(size), k)
             sub[loc] = idx
     s["sub"] = sub
+    s["mesh2"] = rng.random() < 0.3
     return s
 
 
 def malformed(rng, s):
     """Turn a valid spec into a malformed one; returns the kind."""
-    kind = rng.choice(["node-out-of-range", "below-start-index", "empty-row", "missing-variable", "bad-location"])
+    kind = rng.choice(["node-out-of-range", "below-start-index", "empty-row", "missing-variable", "bad-location",
+                       "topdim", "no-node-coordinates", "foreign-face-dimension", "ff-other-dimension", "coordinate-count"])
     s["valid"] = False
+    s["mesh2"] = False
     s["malformed"] = kind
     which = "face" if s["faces"] else "edge"
     rows = s["faces"] if s["faces"] else s["edges"]
@@ -269,6 +380,17 @@ def malformed(rng, s):
         raw["drop_face_var"] = True
     elif kind == "bad-location":
         raw["location_attr"] = "volume"
+    elif kind == "topdim":
+        raw["topdim"] = rng.choice([1, 2, 3, 4, 0])
+    elif kind == "no-node-coordinates":
+        raw["drop_node_coords"] = True
+    elif kind == "foreign-face-dimension":
+        raw["face_dimension"] = rng.choice(["nNodes", "nMaxFaceNodes", "nFaces"])
+    elif kind == "ff-other-dimension":
+        raw["ff_other_dim"] = True
+    elif kind == "coordinate-count":
+        raw["edge_coord_one"] = True
+        s["edge_coords"] = True
     s["raw"] = raw
     return kind
 
@@ -411,6 +533,67 @@ def check_sub(fail, what, full, sub, idx, ids_first, loc):
              es, [sub["norm0"], sub["norm1"]], loc)
     elif n0b != n0 or n1b != n1:
         fail("normalise-not-idempotent", f"a second normalisation changed {what}[{idx}]", [n0, n1], [n0b, n1b], loc)
+
+
+def check_ops(fail, loc, ops, exp, ebs, ecc, idx, ids_first, counters):
+    """Copy and whole-field subspace: the topology constructs and bounds follow the cells."""
+    def dt_ok(got, want):
+        return same_content(got, want, True) if ids_first else got == want
+
+    def part(ob, want_dt, want_cc, want_b, size):
+        if ob is None:
+            return "nothing observed"
+        if "err" in ob:
+            return f"raised {ob['err']}: {ob.get('msg')}"
+        if ob.get("axis_sizes") != [size]:
+            return f"axis sizes {ob.get('axis_sizes')}, expected [{size}]"
+        if not dt_ok(rows_of(ob.get("dt")), want_dt):
+            return f"domain topology {ob.get('dt')}"
+        if want_cc is not None and [rows_of(c) for c in ob.get("cc", [])] != [want_cc]:
+            return f"cell connectivity {ob.get('cc')}"
+        for k, v in want_b.items():
+            g = rows_of((ob.get("bounds") or {}).get(k))
+            if g != v:
+                return ("BOUNDS", k, g, v)
+        return None
+
+    bad = part(ops.get("copy"), exp, ecc, ebs, len(exp))
+    if bad is not None:
+        fail("field-copy", f"a copy of the field on {loc}, taken after the arrays of the original had been read and "
+             f"overwritten in place, differs from what was read: {bad}", loc=loc)
+        return
+    fs = ops.get("fsub")
+    if not idx or fs is None:
+        return
+    want_dt = [exp[c] for c in idx]
+    want_cc = None if ecc is None else [ecc[c] for c in idx]
+    want_b = {k: [v[c] for c in idx] for k, v in ebs.items()}
+    bad = part(fs, want_dt, want_cc, want_b, len(idx))
+    if isinstance(bad, tuple):
+        _, k, g, v = bad
+        reversed_rule = len(idx) > 1 and idx[-1] < idx[0] and g == [r[::-1] for r in v]
+        if reversed_rule and loc == "edge":
+            # CF 7.1 as cfdm applies it to any (n, 2) bounds: a decreasing index list swaps the two vertices of
+            # every edge; the end points of each edge are kept
+            counters["edge-bounds-swapped-by-decreasing-index"] = counters.get("edge-bounds-swapped-by-decreasing-index", 0) + 1
+            bad = None
+        elif reversed_rule:
+            fail("field-subspace-reverses-polygon-bounds", f"field[{idx}] on faces: the {k} bounds are the node coordinates "
+                 f"in reverse vertex order (padding first), no longer those gathered through the domain topology of the "
+                 f"subspace: {g}", v, g, loc)
+            return
+        else:
+            bad = f"{k} bounds {g}"
+    if bad is not None:
+        fail("field-subspace", f"field[{idx}] on {loc}: the constructs of the subspace are not rows {idx} of those read: {bad}",
+             [want_dt, want_cc, want_b], fs, loc)
+        return
+    if fs.get("data") and fs["data"].get("rows") != list(idx):
+        fail("field-subspace", f"field[{idx}] on {loc}: data {fs.get('data')}", loc=loc)
+    elif ops.get("fsub_again") != fs:
+        fail("array-not-repeatable", f"field[{idx}] on {loc}: a second access (after the first arrays were overwritten) differs",
+             fs, ops.get("fsub_again"), loc)
+    counters["field-subspaces"] = counters.get("field-subspaces", 0) + 1
 
 
 def strip_sub(x):
@@ -589,6 +772,32 @@ def check_valid(chk, s, r, counters):
         if o.get("axis_sizes") and len(o["axis_sizes"]) == 1 and got is not None and o["axis_sizes"][0] != len(got):
             if loc not in explained:
                 fail("topology-axis-size", f"{loc}: domain axis size {o['axis_sizes']} but {len(got)} topology rows", loc=loc)
+        # copies and whole-field subspaces; the second mesh variable of the file
+        if loc not in explained and got is not None:
+            if loc == "node":
+                ebs, ecc_full, exp_dt = {}, None, exp_point(s)
+            else:
+                exp_dt = padded(s["faces"] if loc == "face" else s["edges"], files[loc][3])
+                ebs = {name: [[None if v is None else cs[v] for v in rr] for rr in exp_dt]
+                       for name, cs in (("longitude", xs), ("latitude", ys))}
+                ecc_full = None
+                if loc == "face" and "ff" in files:
+                    ecc_full = [[i] + rr for i, rr in enumerate(padded(s["face_face"], files["ff"][3]))]
+            check_ops(fail, loc, o.get("ops") or {}, exp_dt, ebs, ecc_full, (s.get("sub") or {}).get(loc), loc == "node", counters)
+            if s.get("mesh2") and loc not in explained:
+                o2 = field.get("2:" + loc)
+                if not o2 or "dt" not in o2:
+                    fail("second-mesh", f"no domain topology for data on {loc} of the second mesh topology variable: {o2}", loc=loc)
+                else:
+                    b2 = {a.get("name"): rows_of(a.get("bounds")) for a in o2.get("aux", []) if "bounds" in a}
+                    w2 = {k: [[None if v is None else v + 1000 for v in rr] for rr in rows] for k, rows in ebs.items()}
+                    if (strip_sub(o2["dt"]) != strip_sub(o["dt"])
+                            or [c.get("array") for c in o2.get("cc", [])] != [c.get("array") for c in o.get("cc", [])]
+                            or b2 != w2):
+                        fail("second-mesh", f"{loc}: the constructs from a second mesh topology variable that shares the "
+                             f"connectivity variables differ from those of the first: {[c.get('array') for c in o2.get('cc', [])]} / {b2}",
+                             [o.get("dt"), o.get("cc"), w2], [o2.get("dt"), o2.get("cc"), b2], loc)
+                    counters["second-mesh-" + loc] = counters.get("second-mesh-" + loc, 0) + 1
         # the domain read from the mesh variable carries the same constructs
         d = domain.get(loc)
         if isinstance(domain, dict) and "read_err" not in domain:
@@ -681,8 +890,8 @@ def run(chk, model_ok):
     for rc, err in crashed:
         chk.fail("correspondence", "worker-crash", f"C15 worker died rc={rc}: {err}", {"correspondence": "drive/c15.py"})
     counters, fam_count = {}, {}
-    lits = {"cells": [], "point": [], "conn": [], "norm_ids": [], "norm_cells": []}
-    meta = {"cells": [], "point": [], "conn": [], "norm_ids": [], "norm_cells": []}
+    lits = {"cells": [], "point": [], "conn": [], "norm_ids": [], "norm_cells": [], "mesh": []}
+    meta = {"cells": [], "point": [], "conn": [], "norm_ids": [], "norm_cells": [], "mesh": []}
     explained = {}
     mal_outcomes = {}
     for s, r in zip(cases, rows):
@@ -703,10 +912,13 @@ def run(chk, model_ok):
         for kind, lit, loc in literals(s, r):
             lits[kind].append(lit)
             meta[kind].append((s, r, loc))
+        if not (s.get("raw") or {}).get("location_attr"):
+            lits["mesh"].append(mesh_literal(s, r))
+            meta["mesh"].append((s, r, "mesh"))
     ncorr = 0
     if model_ok:
         for kind, fn in (("cells", "check_cells"), ("point", "check_point"), ("conn", "check_conn"),
-                         ("norm_ids", "check_norm_ids"), ("norm_cells", "check_norm_cells")):
+                         ("norm_ids", "check_norm_ids"), ("norm_cells", "check_norm_cells"), ("mesh", "check_mesh")):
             if not lits[kind]:
                 continue
             bad = lib.coq_bad_indices("C15", REQ, fn, lits[kind], chunk=120)
@@ -714,6 +926,8 @@ def run(chk, model_ok):
             for i in bad[:40]:
                 s, r, loc = meta[kind][i]
                 if loc in explained.get(s["i"], set()) or None in explained.get(s["i"], set()):
+                    continue
+                if kind == "mesh" and explained.get(s["i"]):
                     continue
                 chk.fail("correspondence", "model-vs-impl:" + kind,
                          f"model and implementation disagree on the {kind} arrays of a mesh ({s['fam']}, {loc})",
